@@ -43,7 +43,7 @@ func (P) Describe() harness.Description {
 			"E1: decision and requested wait equal the reference queue (admit at max(now,last+D) unless that wait exceeds the limit or batch > threshold; D = ceil(batch*interval/threshold) with a 1 ns rounding band). E2: admitted requests ordered by pass time (arrival the check read + requested wait) are each >= D(own batch) after their predecessor, no wait above the limit. " +
 			"non-trivial = at least one request waited and at least one was rejected for queueing; distinct = hash(config, ops[, schedule])",
 		Assumptions: []string{"pacing interval D = ceil(batch*interval/threshold) ns; the implementation computes it in floating point, a difference of 1 ns is inside the band", "E2: arrival = the nanosecond clock value the admission check received (recorded at the clock seam), wait = the Sleep it requested"},
-		Real:        []string{"api.Entry/Exit", "core/flow (slot, throttling checker, direct calculator, rule manager)", "slot chain, stat slot", "the same code a second time on a worker built for GOARCH=386 (a quarter of the budget, seed + 386000): int and pointers of 32 bits - skipped with a note where such a worker cannot be built or run"},
+		Real:        []string{"api.Entry/Exit", "core/flow (slot, throttling checker, direct calculator, rule manager)", "slot chain, stat slot"},
 		Stub:        []string{"util.Clock (virtual clock; Sleep captured)", "E2: goroutine scheduling (cooperative seeded scheduler)"},
 	}
 }
